@@ -987,13 +987,11 @@ func (q *MatchQuery) Searcher(i search.Reader, options search.SearcherOptions) (
 			booleanQuery := NewBooleanQuery()
 			booleanQuery.AddShould(tqs...)
 			booleanQuery.SetMinShould(1)
-			booleanQuery.SetBoost(q.boost.Value())
 			return booleanQuery.Searcher(i, options)
 
 		case MatchQueryOperatorAnd:
 			booleanQuery := NewBooleanQuery()
 			booleanQuery.AddMust(tqs...)
-			booleanQuery.SetBoost(q.boost.Value())
 			return booleanQuery.Searcher(i, options)
 
 		default:
